@@ -15,7 +15,9 @@
 (*   AddCashFlow(a)   S.AddCashFlow(TermText(a), eqn = a.eqn if a.he else None,        *)
 (*                                  is_income = a.inc)                                 *)
 (* An action is a record [op, s1, br, s2, body, he, eqn, inc, who] (IsAct).  A flow    *)
-(* term is a body (flow name A, B or the products A*B, B*A) with a sign / bracket      *)
+(* term is a body (flow name A, B, the products A*B, B*A or the quotients A/B, B/A:    *)
+(* two-factor terms are like terms only when spelled identically, A/B is not B/A)      *)
+(* with a sign / bracket                                                                *)
 (* spelling s1 ( s2 body ): +A, -A, (-A), -(A), -(-A) ...  A defining expression is    *)
 (* only supplied (he) for single-name flows.                                          *)
 (*                                                                                    *)
@@ -23,8 +25,8 @@
 (* state record are the single source of truth: the actions below and the trace        *)
 (* specification Sector_Trace both go through them.                                    *)
 (*                                                                                    *)
-(* Property C06 is stated as invariants over the value Den(.) of the ledgers under the *)
-(* two integer valuations Vals, as a function of the history `log` only.               *)
+(* Property C06 is stated as invariants over the (K-fold, hence integer) value Den(.)  *)
+(* of the ledgers under the two valuations Vals, as a function of the history `log` only. *)
 EXTENDS Integers, Sequences, TLC, FiniteSets
 
 CONSTANTS
@@ -32,7 +34,7 @@ CONSTANTS
     MaxLen          \* bound on the length of a history
 
 FlowNames == {"A", "B"}
-Bodies    == {"A", "B", "A*B", "B*A"}
+Bodies    == {"A", "B", "A*B", "B*A", "A/B", "B/A"}
 D1 == "Z*2"                 \* the two defining expressions
 D2 == "W-1"
 Eqns  == {"", "0.0", D1, D2}
@@ -58,18 +60,29 @@ Coef(a) == SignOf(a.s1) * SignOf(a.s2)
 TermText(a) == a.s1 \o (IF a.br THEN "(" \o a.s2 \o a.body \o ")" ELSE a.body)
 
 ----------------------------------------------------------------------------
-(* valuations.  Two ledgers whose coefficients on A, B, A*B differ by less than 41 and   *)
-(* that differ at all (also in the coefficient of LAG_F) differ in value on one of them: *)
-(* 5x+2y+10z = 0 /\ -3x+7y-21z = 0 has the integer solutions k*(-112, 75, 41) only, and  *)
-(* |5x+2y+10z| < 1000 for such coefficients.                                             *)
-Vals == << [A |-> 5,  B |-> 2, L |-> 1000,  Z |-> 3,  W |-> 8],
-           [A |-> -3, B |-> 7, L |-> -1003, Z |-> -4, W |-> -6] >>
+(* valuations.  Quotient flows make ledger values rational, so every ledger value is    *)
+(* taken times the fixed integer v.K (a common denominator): Den.. below are K-fold       *)
+(* values and exact integers.  With A = +-16^3, B = 16, K = 16^2 the K-fold values of      *)
+(*    B/A, B, A/B, A, A*B (= B*A), LAG_F   are   +-1, 16^3, +-16^4, +-16^5, +-16^6, +-16^7 *)
+(* i.e. distinct powers of 16.  Hence two ledgers whose coefficients differ by less than   *)
+(* 16 and that differ at all (A*B and B*A counted together: they are the same flow value)  *)
+(* differ in value under each valuation; in particular A/B and B/A are told apart.         *)
+(* Everything stays below 2^31 for histories of length < 7.                                *)
+Vals == << [A |-> 4096,  B |-> 16, L |-> 1048576,  K |-> 256, Z |-> 3,  W |-> 8],
+           [A |-> -4096, B |-> 16, L |-> -1048576, K |-> 256, Z |-> -4, W |-> -6] >>
 
-DenBody(b, v) ==
-    CASE b = "A"   -> v.A
-      [] b = "B"   -> v.B
-      [] b = "A*B" -> v.A * v.B
-      [] b = "B*A" -> v.B * v.A
+ASSUME \A i \in 1..2 : LET v == Vals[i] IN          \* the quotients are exact
+          /\ ((v.K * v.A) \div v.B) * v.B = v.K * v.A
+          /\ ((v.K * v.B) \div v.A) * v.A = v.K * v.B
+
+DenBody(b, v) ==            \* K-fold value of a flow term
+    CASE b = "A"   -> v.K * v.A
+      [] b = "B"   -> v.K * v.B
+      [] b = "A*B" -> v.K * v.A * v.B
+      [] b = "B*A" -> v.K * v.B * v.A
+      [] b = "A/B" -> (v.K * v.A) \div v.B
+      [] b = "B/A" -> (v.K * v.B) \div v.A
+DenLag(v) == v.K * v.L
 
 DenDef(d, v) ==
     CASE d = D1 -> v.Z * 2
@@ -84,7 +97,7 @@ SumBag(S, bag, v) ==
          IN bag[b] * DenBody(b, v) + SumBag(S \ {b}, bag, v)
 
 DenINC(bag, v) == SumBag(Bodies, bag, v)
-DenF(bag, v)   == v.L + SumBag(Bodies, bag, v)      \* F starts as the single term LAG_F
+DenF(bag, v)   == DenLag(v) + SumBag(Bodies, bag, v)      \* F starts as the single term LAG_F
 
 EmptyBag == [b \in Bodies |-> 0]
 
@@ -189,7 +202,7 @@ SumFlows(lg, i, v, incomeOnly) ==
           THEN Coef(lg[i].a) * DenBody(lg[i].a.body, v) ELSE 0)
          + SumFlows(lg, i - 1, v, incomeOnly)
 
-ExpF(lg, i)   == Vals[i].L + SumFlows(lg, Len(lg), Vals[i], FALSE)
+ExpF(lg, i)   == DenLag(Vals[i]) + SumFlows(lg, Len(lg), Vals[i], FALSE)
 ExpINC(lg, i) == SumFlows(lg, Len(lg), Vals[i], TRUE)
 
 C06_F   == \A i \in 1..2 : DenF(F, Vals[i]) = ExpF(log, i)
